@@ -2,6 +2,7 @@ package rules
 
 import (
 	"fmt"
+	"go/token"
 	"go/types"
 	"golang.org/x/tools/go/ssa"
 	"strings"
@@ -747,3 +748,108 @@ func specKeyOf(v ssa.Value, depth int) (string, bool) {
 }
 
 func normName(s string) string { return strings.ToLower(strings.ReplaceAll(s, "_", "")) }
+
+// localClosureOf: the function literal a called value stands for when the value is a local closure variable —
+// directly, through the variable's cell (written once), or captured from the enclosing function.
+func localClosureOf(v ssa.Value) *ssa.Function {
+	for depth := 0; depth < 6 && v != nil; depth++ {
+		switch x := v.(type) {
+		case *ssa.MakeClosure:
+			fn, _ := x.Fn.(*ssa.Function)
+			return fn
+		case *ssa.Function:
+			if x.Parent() != nil {
+				return x
+			}
+			return nil
+		case *ssa.UnOp:
+			if x.Op != token.MUL {
+				return nil
+			}
+			v = x.X
+		case *ssa.Alloc:
+			var stored ssa.Value
+			n := 0
+			if x.Referrers() != nil {
+				for _, ref := range *x.Referrers() {
+					if st, ok := ref.(*ssa.Store); ok && st.Addr == ssa.Value(x) {
+						stored = st.Val
+						n++
+					}
+				}
+			}
+			if n != 1 {
+				return nil
+			}
+			v = stored
+		case *ssa.FreeVar:
+			v = core.FreeVarBinding(x)
+		default:
+			return nil
+		}
+	}
+	return nil
+}
+
+// throughLocalClosures widens an instruction predicate to calls of a local closure whose body performs the effect
+// exactly once on every path (`run := func() { …; jobFunc(ctx); … }` … `run()`).
+func throughLocalClosures(pred core.InstrPred) core.InstrPred {
+	return func(in ssa.Instruction) bool {
+		if pred(in) {
+			return true
+		}
+		c, ok := in.(*ssa.Call)
+		if !ok || c.Call.IsInvoke() || c.Call.StaticCallee() != nil && c.Call.StaticCallee().Parent() == nil {
+			return false
+		}
+		cl := localClosureOf(c.Call.Value)
+		if cl == nil || len(cl.Blocks) == 0 {
+			return false
+		}
+		mn, mx, ok := core.CountOnPaths(cl.Blocks[0], pred, nil)
+		return ok && mn == 1 && mx == 1
+	}
+}
+
+// sprintfExpanded: the constant format of a fmt.Sprintf call with every %s whose argument is a string constant
+// replaced by that constant (`Sprintf("^%s/%s$", name, ".*")` reads "^%s/.*$"). ok is false when v is no such call.
+func sprintfExpanded(v ssa.Value) (string, bool) {
+	call, ok := v.(*ssa.Call)
+	if !ok || !strings.HasSuffix(core.CalleeName(&call.Call), "fmt.Sprintf") || len(call.Call.Args) < 1 {
+		return "", false
+	}
+	format, ok := constString(call.Call.Args[0])
+	if !ok {
+		return "", false
+	}
+	var elems []ssa.Value
+	if len(call.Call.Args) > 1 {
+		elems = variadicElems(call.Call.Args[1])
+	}
+	var out strings.Builder
+	k := 0
+	for i := 0; i < len(format); i++ {
+		if format[i] == '%' && i+1 < len(format) {
+			if format[i+1] == '%' {
+				out.WriteString("%%")
+				i++
+				continue
+			}
+			if format[i+1] == 's' && k < len(elems) && elems[k] != nil {
+				e := elems[k]
+				if mi, isMI := e.(*ssa.MakeInterface); isMI {
+					e = mi.X
+				}
+				if cs, isC := constString(e); isC && !strings.Contains(cs, "%") {
+					out.WriteString(cs)
+					k++
+					i++
+					continue
+				}
+			}
+			k++
+		}
+		out.WriteByte(format[i])
+	}
+	return out.String(), true
+}
